@@ -320,7 +320,13 @@ func checkC16(c *Ctx, r *Report) {
 
 	// ---- R4 error discipline
 	pf := c.fn("cdr/asn", "ParseField")
-	for _, f := range []*ssa.Function{pf, c.fn("cdr/asn", "parseTagAndLength")} {
+	var r4fns []*ssa.Function
+	for _, f := range c.ModFuncs {
+		if f.Pkg != nil && f.Pkg.Pkg.Path() == asnPath && hasByteSeqParam(f) && f.Parent() == nil {
+			r4fns = append(r4fns, f)
+		}
+	}
+	for _, f := range r4fns {
 		eachInstr(f, func(_ *ssa.BasicBlock, _ int, ins ssa.Instruction) {
 			call, ok := ins.(*ssa.Call)
 			if !ok {
@@ -330,12 +336,11 @@ func checkC16(c *Ctx, r *Report) {
 			if sc == nil || !c.inModule(sc) || sc.Pkg == nil || sc.Pkg.Pkg.Path() != asnPath {
 				return
 			}
-			switch sc.Name() {
-			case "parseTagAndLength", "parseInt64", "parseBool", "parseBitString":
-			default:
+			// the primitive parsers: package functions that take the input octets and return (..., error)
+			res := sc.Signature.Results()
+			if sc == pf || res.Len() < 2 || !isErrorType(res.At(res.Len()-1).Type()) || !hasOctetParam(sc) {
 				return
 			}
-			res := sc.Signature.Results()
 			errIdx := res.Len() - 1
 			var errV ssa.Value
 			for _, ref := range *call.Referrers() {
@@ -359,6 +364,18 @@ func checkC16(c *Ctx, r *Report) {
 						if st, isSt := use.(*ssa.Store); isSt {
 							if _, isAlloc := st.Addr.(*ssa.Alloc); isAlloc {
 								continue // assignment to the result variable itself
+							}
+						}
+						if ret, isRet := use.(*ssa.Return); isRet {
+							// handed back together with the error itself: propagation, not use
+							prop := false
+							for _, rv := range ret.Results {
+								if rv == errV {
+									prop = true
+								}
+							}
+							if prop {
+								continue
 							}
 						}
 						if !onSuccessEdge(call, use.Block()) {
@@ -557,4 +574,133 @@ func c16ReflectSet(c *Ctx, r *Report) {
 	if n == 0 {
 		r.viol("C16.R5", fnKey(f)+"|Set", c.rel(f.Pos()), "no reflect Set found in the special-type cases (anchor moved)")
 	}
+}
+
+// signExtends decides whether every non-error result #0 of f is a two's
+// complement reading of its byte argument: either the unsigned accumulation
+// shifted up and (arithmetically) down by the same distance, or an
+// accumulation that starts from the first octet converted through int8, or a
+// call of such a function (possibly followed by that shift pair).
+func signExtends(f *ssa.Function, depth int) (bool, string) {
+	if f == nil || len(f.Blocks) == 0 || depth > 2 {
+		return false, "no body"
+	}
+	n := 0
+	for _, ri := range returnsOf(f) {
+		if len(ri.Vals) < 1 {
+			continue
+		}
+		if len(ri.Vals) >= 2 {
+			if call, ok := ri.Vals[len(ri.Vals)-1].(*ssa.Call); ok {
+				if obj := calleeObj(&call.Call); obj != nil && (isFunc(obj, "fmt", "Errorf") || isFunc(obj, "errors", "New")) {
+					continue
+				}
+			}
+		}
+		v := ri.Vals[0]
+		if k, ok := v.(*ssa.Const); ok {
+			if _, isInt := constInt(k); isInt {
+				continue // constant result on an early exit
+			}
+		}
+		// results that merge an early-exit value with the computed one
+		leaves := []ssa.Value{v}
+		if ph, ok := v.(*ssa.Phi); ok {
+			leaves = ph.Edges
+		}
+		for _, lf := range leaves {
+			if ex, ok := lf.(*ssa.Extract); ok && ex.Index == 0 {
+				if call, ok := ex.Tuple.(*ssa.Call); ok {
+					if okc, _ := shiftOrAccumulation(call.Call.StaticCallee()); okc {
+						continue // the unchanged unsigned value on the path that does not need extension (e.g. empty contents)
+					}
+				}
+			}
+			n++
+			shr, ok := lf.(*ssa.BinOp)
+			if !ok || shr.Op != token.SHR {
+				if ex, ok := lf.(*ssa.Extract); ok {
+					if call, ok := ex.Tuple.(*ssa.Call); ok {
+						if okc, _ := signExtends(call.Call.StaticCallee(), depth+1); okc {
+							continue
+						}
+					}
+				}
+				return false, "the result " + describe(lf) + " is not (x << s) >> s on a signed 64-bit value"
+			}
+			if b, ok := shr.X.Type().Underlying().(*types.Basic); !ok || b.Kind() != types.Int64 {
+				return false, "the right shift is not arithmetic (operand is not int64)"
+			}
+			shl, ok := shr.X.(*ssa.BinOp)
+			if !ok || shl.Op != token.SHL {
+				return false, "the value shifted down was not shifted up before"
+			}
+			if shl.Y != shr.Y {
+				return false, "the two shift distances differ"
+			}
+		}
+	}
+	if n == 0 {
+		return false, "no sign-extended result"
+	}
+	return true, ""
+}
+
+// c05IntegerSigned (C05.R7): INTEGER and ENUMERATED contents are two's
+// complement (X.690 8.3).  The encoder writes negative values with the top bit
+// of the first contents octet set and in as few octets as possible, so a
+// decoder that accumulates the octets as an unsigned quantity cannot return a
+// negative value of fewer than 8 octets: decode(encode(-1)) = 255.  The rule
+// inspects the function ParseField obtains integer values from.
+func c05IntegerSigned(c *Ctx, r *Report, rule string) {
+	pf := c.fn("cdr/asn", "ParseField")
+	ptl := c.fn("cdr/asn", "parseTagAndLength")
+	n := 0
+	eachInstr(pf, func(_ *ssa.BasicBlock, _ int, ins ssa.Instruction) {
+		call, ok := ins.(*ssa.Call)
+		if !ok {
+			return
+		}
+		sc := call.Call.StaticCallee()
+		if sc == nil || sc == ptl || sc == pf || !c.inModule(sc) || len(call.Call.Args) == 0 || !isByteSeq(call.Call.Args[0].Type()) {
+			return
+		}
+		res := sc.Signature.Results()
+		if res.Len() < 1 {
+			return
+		}
+		if b, ok := res.At(0).Type().Underlying().(*types.Basic); !ok || b.Kind() != types.Int64 {
+			return
+		}
+		n++
+		key := fmt.Sprintf("%s|integer contents #%d", fnKey(pf), n)
+		if okU, _ := shiftOrAccumulation(sc); okU {
+			r.viol(rule, key, posOf(c, call), "INTEGER / ENUMERATED contents are read by "+sc.Name()+", a plain unsigned accumulation of the octets: a negative value (encoded with the top bit of its first octet set, in fewer than 8 octets) decodes to a positive one, e.g. decode(encode(-1)) = 255")
+			return
+		}
+		okS, why := signExtends(sc, 0)
+		r.check(okS, rule, key, posOf(c, call), "contents are read as a two's complement number ("+sc.Name()+" sign-extends)", "cannot establish that "+sc.Name()+" reads the contents as a two's complement number: "+why)
+	})
+}
+
+func hasByteSeqParam(f *ssa.Function) bool {
+	for _, p := range f.Params {
+		if isByteSeq(p.Type()) {
+			return true
+		}
+	}
+	return false
+}
+
+// hasOctetParam: the function takes the input octets or one of them.
+func hasOctetParam(f *ssa.Function) bool {
+	for _, p := range f.Params {
+		if isByteSeq(p.Type()) {
+			return true
+		}
+		if b, ok := p.Type().Underlying().(*types.Basic); ok && b.Kind() == types.Uint8 {
+			return true
+		}
+	}
+	return false
 }
